@@ -40,6 +40,9 @@ C["C17"] = dict(
 C["C10"] = dict(
   text="Lean 4 theorems over a model of MagnetLink::to_url (repaired encoder), the url crate's query pass and a standard query-string parser: for every infohash, name, tracker text, peer text (arbitrary byte strings) and index set, the printed query decodes - with or without +-as-space - to exactly xt, dn, one tr per tracker, one x.pe per peer and so (link_decodes, via the percent round trip pctDecode (escape s) = s and the absence of & + # and controls in escaped text); the url crate's pass is the identity on the assembled query; the own parser accepts only links carrying a 40-hex urn:btih topic; so is strictly ascending and holds exactly the given indices; the tracker list is duplicate-free, in first-appearance order, announce first. Correspondence: hook magnet_build/magnet_parse/trackers on adversarial names and tracker URLs, decoded by the harness's own parser in both + conventions and by imdl's parser; CLI torrent link --peer --select-only.",
   note="Trusted: Lean kernel; url crate query encoding modelled and validated; Url/HostPort normalisation taken from the real code.")
+C["C12"] = dict(
+  text="Lean 4 theorems over a byte-level model of the tracker client: for all transaction/connection ids, infohashes, peer ids and ports the connect request is 16 bytes (magic, action 0, tid) and the announce request 98 bytes with the connection id, action 1, tid, the infohash at 16..36, a non-zero left at 64..72 and the port at 96..98 (big-endian round trip ofBE (toBE k n) = n mod 256^k); at most three sends per request under every drop pattern; a reply is used iff long enough and echoing action and transaction id (accept_iff), otherwise a failure; the peer list is exactly the fixed-size records of the accepted reply or rejected when ragged; everything printed comes from an accepted reply, once; exit status 1 iff no tracker usable; non-UDP/port-less URLs skipped. Magic, lengths, retry count, strides, field values and the serialisation field order are extracted from the source each run (decide-theorems break when they change). Correspondence: loopback tracker simulator recording every datagram, scripted replies (every field perturbed, truncations, error action, ragged/duplicate lists, IPv4/IPv6, 0-3 drops per phase), real `imdl torrent announce`.",
+  note="Trusted: Lean kernel; socket/timeouts/delivery are runtime (partial); sampled scenarios tie the model to the code.")
 
 
 def main():
